@@ -129,7 +129,7 @@ def _base_knobs(g, nthreads):
 
 def _finish(g, k, progs, faults, sched, **extra):
     cfg = {"awk_mode": k["awk_mode"], "errstate": k["errstate"], "warnfilter": k["warnfilter"], "printopts": k["printopts"],
-           "simlib": any(f["seam"] == "lib" for f in faults)}
+           "simlib": any(f["seam"] in ("lib", "alloc") for f in faults)}
     w = {"kind": "world", "config": cfg, "pool": g.pool, "progs": progs, "faults": faults, "sched": sched,
          "knobs": {"nthreads": len(progs), "directed": True}}
     w.update(extra)
